@@ -42,7 +42,8 @@ def verify(sid, props, tier, suite=True):
     props = props or meta.get("checks_expected") or [meta["property"]]
     base = mutants.make_copy("seed-" + sid)
     out = tempfile.mkdtemp(prefix="verif-out-", dir="/dev/shm")
-    demo = os.path.join(base, "_demo.py")
+    demo_dir = tempfile.mkdtemp(prefix="seed-demo-", dir="/dev/shm")     # outside the copy: pytest must not collect it
+    demo = os.path.join(demo_dir, "demo.py")
     shutil.copy(os.path.join(d, "demo.py"), demo)
     conf = {"at": time.strftime("%Y-%m-%d %H:%M:%S"), "repo_head": subprocess.run(
         ["git", "-C", mutants.REPO, "rev-parse", "--short", "HEAD"], capture_output=True, text=True).stdout.strip()}
@@ -60,7 +61,6 @@ def verify(sid, props, tier, suite=True):
         else:
             rc, tail = run_demo(base, demo)
             conf["demo_on_patched_tree"] = {"exit": rc, "tail": tail}
-            os.remove(demo)
             if suite:
                 ok, missing = mutants.run_suite(base)
                 conf["suite_still_passes"] = ok
@@ -72,6 +72,7 @@ def verify(sid, props, tier, suite=True):
     finally:
         shutil.rmtree(base, ignore_errors=True)
         shutil.rmtree(out, ignore_errors=True)
+        shutil.rmtree(demo_dir, ignore_errors=True)
     conf["valid_seed"] = bool(conf.get("patch_applies") and conf.get("demo_on_unchanged_tree", {}).get("exit") == 0
                               and conf.get("demo_on_patched_tree", {}).get("exit") not in (0, None)
                               and conf.get("suite_still_passes", True))
